@@ -1,5 +1,5 @@
 (* Props_C16.v — C16: output files hold what was computed and reload to the same model. *)
-From Coq Require Import String List Bool Reals Arith QArith.
+From Coq Require Import String List Bool Reals Arith ZArith QArith.
 From TV Require Import Num ListNum Model_C16 Proofs_C16.
 Import ListNotations.
 Local Open Scope string_scope.
@@ -27,17 +27,16 @@ Proof. exact nothing_else_stored. Qed.
 Print Assumptions C16_nothing_else_stored.
 
 (* (b) optical depths according to the output size; spectra and grids always *)
-Theorem C16_native_tau_iff_heavy : forall (b : bkind) (sz : osize),
-  In "native_tau" (spectrum_keys b sz) <-> sz = Heavy.
-Proof. exact native_tau_iff_heavy. Qed.
-Print Assumptions C16_native_tau_iff_heavy.
+Theorem C16_native_tau_iff : forall (b : bkind) (sz : Z), In "native_tau" (spectrum_keys b sz) <-> (light < sz)%Z.
+Proof. exact native_tau_iff. Qed.
+Print Assumptions C16_native_tau_iff.
 
-Theorem C16_binned_tau_iff : forall (b : bkind) (sz : osize),
-  In "binned_tau" (spectrum_keys b sz) <-> (b <> BNative /\ sz <> Lighter).
+Theorem C16_binned_tau_iff : forall (b : bkind) (sz : Z),
+  In "binned_tau" (spectrum_keys b sz) <-> (b <> BNative /\ (lighter < sz)%Z).
 Proof. exact binned_tau_iff. Qed.
 Print Assumptions C16_binned_tau_iff.
 
-Theorem C16_spectrum_always_present : forall (b : bkind) (sz : osize),
+Theorem C16_spectrum_always_present : forall (b : bkind) (sz : Z),
   In "native_wngrid" (spectrum_keys b sz) /\ In "native_wlgrid" (spectrum_keys b sz) /\
   In "native_spectrum" (spectrum_keys b sz) /\
   (b <> BNative -> In "binned_spectrum" (spectrum_keys b sz) /\ In "binned_wngrid" (spectrum_keys b sz) /\
